@@ -18,7 +18,10 @@ PROPERTY = "C04"
 FAMILY = "load"
 LEAN_MODULE = "ElfioVerif.Props.C04"
 THEOREMS = ["ElfioVerif.C04.layoutLoose_disjoint", "ElfioVerif.C04.layoutLoose_aligned",
-            "ElfioVerif.C04.wsd_monotone", "ElfioVerif.C04.layout_disjoint"]
+            "ElfioVerif.C04.wsd_monotone", "ElfioVerif.C04.layout_disjoint",
+            "ElfioVerif.C04.member_equidistant", "ElfioVerif.C04.member_inside",
+            "ElfioVerif.C04.segment_congruent", "ElfioVerif.C04.memsz_ge_filesz",
+            "ElfioVerif.C04.memsz_covers", "ElfioVerif.C04.memsz_witness"]
 SITES = ["save_", "lsws", "lst_", "lseg", "wsd"]
 RULE = ("writer-domain programs (power-of-two alignments; segment members in address order, non-empty, allocated, "
         "no-bits only last; automatic or explicit non-overlapping addresses; nested segments starting at a "
@@ -35,6 +38,7 @@ def gen_cases(rng, tier):
         cls, enc = CFGS[i % 4]
         p = gen_program(rng, cls, enc)
         yield {"id": f"p{i}", "lines": to_lines(p) + ["save"], "meta": {"prog": _c03.jsonable(p)}}
+    yield {"id": "f14-witness", "lines": to_lines(F14_PROG) + ["save"], "meta": {"prog": _c03.jsonable(F14_PROG)}}
     for f, b in examples(20000 if tier == "quick" else 200000):
         if elfspec.wellformed(b):
             yield {"id": f"ex-{f}", "lines": [f"load {hx(b)} lazy=0 kind=str", "save"], "meta": {"example": f}}
@@ -52,16 +56,28 @@ def oracle(case, out):
         if not ok:
             return [{"signature": "save-failed", "what": "save() returned false for a writer-domain program"}]
         vs = check_c04(prog, img)
-        if f13_like(prog):
-            pass
-        return [{"signature": "c04:" + k + (":nobits-explicit" if False else ""), "what": w} for k, w in vs][:3]
+        f14 = f14_trigger(prog)
+        return [{"signature": "c04:" + k + (":nobits-explicit" if f14 and k == "memsz-covers" else ""), "what": w}
+                for k, w in vs][:3]
     if not ok:
         return []       # a loaded image the writer declines is not a violation of this property
     return [{"signature": "c04-resave:" + k, "what": w} for k, w in check_c04(None, img)][:3]
 
 
-def f13_like(prog):
-    return f13_trigger(prog)
+def f14_trigger(prog):
+    """a segment member that is NOBITS and has an explicit address (finding F14: its address does not
+    enter the gap computation of write_segment_data, so p_memsz need not cover it)"""
+    return any(prog["secs"][m - 2]["type"] == 8 and prog["secs"][m - 2]["addr"] is not None
+               for g in prog["segs"] for m in g["members"])
+
+
+# the object of Props/C04.lean `memsz_witness` (f14Obj), through the API
+F14_PROG = {"cls": 64, "enc": "lsb",
+            "hdr": {"type": 2, "machine": 62, "flags": 0, "entry": 0x400000, "os_abi": 0, "abi_version": 0},
+            "secs": [{"name": b".bss", "type": 8, "flags": 3, "align": 1, "entsize": 0, "link": 0, "info": 0,
+                      "addr": 0x400024, "data": None, "size": 0x12}],
+            "segs": [{"type": 1, "flags": 6, "align": 0x1000, "vaddr": 0x400000, "paddr": 0x400000,
+                      "members": [2], "explicit": True}]}
 
 
 def nontrivial(case, out):
